@@ -615,6 +615,7 @@ def run_C13(em, impl, tabs, rng, thorough):
 
 def run_C14(em, impl, tabs, rng, thorough):
     from pyrtcm.exceptions import RTCMMessageError
+    RTCMMessage_ = impl.RTCMMessage
     blds = corpus(tabs, rng, 2 if thorough else 1, maxcount=2)
     pays = [b.payload for b in blds] + [bytes([0x12, 0x30, 1, 2, 3]), bytes([0xFE, 0xC0, 0x00, 9])]
     # payloads whose integer value / bytes hash to 0 or -1 on CPython (multiples of 2**61-1, all zeros): "0 / None / empty as not-yet-set"
@@ -643,6 +644,14 @@ def run_C14(em, impl, tabs, rng, thorough):
             except Exception as e:  # noqa
                 return ("snapshot raised", repr(e))
         snap = snapshot()
+        # ... after OTHER constructions have failed in between (no payload, too short, a truncated defined type), and while a third
+        # message exists: the flag is the message's own
+        if pays.index(p) % 3 == 0:
+            for badp in (None, b"", b"\x3e", p[: max(2, len(p) // 2)]):
+                try:
+                    RTCMMessage_(payload=badp)
+                except Exception:  # noqa
+                    pass
         names = list(m.__dict__) + ["new_attribute", "_private_new", "identity", "payload", "DF002", "_payload", "_immutable"]
         for nme in names:
             for val in (1, "x", None, False):
